@@ -59,18 +59,18 @@ class ModeAggregator(Aggregator):
         ):
             raise TypeError("Input `y` must be a list of numpy.ndarray or numpy.ma.MaskedArray.")
 
-        self._np = np
+        xp = np
         is_masked = False
         if all(isinstance(pred, np.ma.MaskedArray) for pred in y):
-            self._np = np.ma
+            xp = np.ma
             is_masked = True
 
         # Categorical probabilities (n_predictors, n_samples, ..., n_classes)
-        y_proba_models = self._np.stack(y, axis=0)
+        y_proba_models = xp.stack(y, axis=0)
         num_classes = y_proba_models.shape[-1]
 
         # Mode of the ensemble (n_samples, ...)
-        y_mode_models = self._np.argmax(y_proba_models, axis=-1)
+        y_mode_models = xp.argmax(y_proba_models, axis=-1)
 
         eye_arr = np.eye(num_classes, dtype=np.float64)
         # One-hot modes of the predictors; a predictor does not vote where its prediction is
@@ -80,18 +80,18 @@ class ModeAggregator(Aggregator):
             votes = np.ma.array(votes, mask=np.ma.getmaskarray(y_proba_models))
         # Weighted average of the one-hot modes of the predictors: the weights are normalised
         # so that the counts of each sample sum to 1 whatever the scale of ``weights``
-        weighted_counts = self._np.average(votes, weights=weights, axis=0)
+        weighted_counts = xp.average(votes, weights=weights, axis=0)
 
         y_mode_ensemble = weighted_counts.argmax(axis=-1)
         if is_masked:
             mask = np.ma.getmaskarray(weighted_counts).all(axis=-1)
-            y_mode_ensemble = self._np.array(y_mode_ensemble, mask=mask)
+            y_mode_ensemble = xp.array(y_mode_ensemble, mask=mask)
 
         if not self.with_uncertainty:
             return y_mode_ensemble
         else:
             # Uncertainty of ensemble
-            uncertainty = 1 - self._np.max(weighted_counts, axis=-1)
+            uncertainty = 1 - xp.max(weighted_counts, axis=-1)
 
             return {
                 "loc": y_mode_ensemble,
